@@ -332,6 +332,20 @@ func init() {
 	// C14: next-major/minor/patch on every version of the universe and at the 2^64 boundary
 	drivers["c14"] = func(d *Drv) {
 		d.Do(Ev{"op": "sem.set", "max": 1024})
+		// string helpers on raw texts: all ordered pairs (including identical operands) of a corpus
+		// of valid and invalid version and tag texts
+		texts := []string{"", "1.0", "1.0.0", "v1.0.0", "1.0.0-a", "v1.0.0-a", "1.0.0-a.1", "1.0.0-a.b+x", "1.0.0+x", "v1.0.0+y", "01.0.0", "1.0.0-01", "1.0.0-a..b", "1.0.0-",
+			"1.0.0+", "V1.0.0", "vv1.0.0", "1.0.0 ", "2.0.0", "v2.0.0", "1.0.0-beta.2", "1.0.0-beta.11", "18446744073709551615.0.0", "18446744073709551616.0.0", "v18446744073709551616.0.0",
+			"1.0.0-a01", "1.0.0-a1", "x", "1.0.0\n", "v"}
+		for i, a := range texts {
+			if !d.Mine(i) {
+				continue
+			}
+			for _, b := range texts {
+				d.Do(Ev{"op": "sem.htext", "a": B(a), "b": B(b)})
+			}
+			d.S.Boundary()
+		}
 		u := universe(3)
 		nums := []string{"0", "1", "9", "10", "4294967295", "4294967296", "9223372036854775807", "9223372036854775808", "18446744073709551613", "18446744073709551614", u64max}
 		n := 0
